@@ -1,5 +1,5 @@
 (* PlaSoundInv.v — the hull invariant of the PLA builder and its preservation by add_point. *)
-Require Import Base PlaModel PlaSpec PlaSoundGeom.
+Require Import Base PlaModel PlaSpec PlaComplete PlaSoundGeom.
 Local Open Scope Z_scope.
 
 (* Ll / Ul : the lower / upper band points seen so far; C / D : live lower / upper chain.
@@ -333,4 +333,286 @@ Proof.
   - exact Hr0x.
   - rewrite psub_neg, lev_neg. lia.
   - rewrite psub_neg, lev_neg. lia.
+Qed.
+
+(* ---- the two phases of add_point on abstract chains ---- *)
+Lemma phase1 : forall Ll Ul C D r0 r1 r2 r3 x yu yl lower1 upper1 r1' r3',
+  Inv Ll Ul C D r0 r1 r2 r3 ->
+  Forall (fun u => fst u < x) Ul -> Forall (fun q => fst q < x) Ll -> yl <= yu ->
+  0 <= lev r0 (psub r2 r0) (x, yu) -> lev r1 (psub r3 r1) (x, yl) <= 0 ->
+  (if slt (psub (x, yu) r1) (psub r3 r1)
+   then match C with
+        | [] => (C, D, r1, r3)
+        | c :: rest => (tangent_lower (x, yu) c rest, push_upper D (x, yu),
+                        hd_pt (tangent_lower (x, yu) c rest), (x, yu))
+        end
+   else (C, D, r1, r3)) = (lower1, upper1, r1', r3') ->
+  Inv Ll (Ul ++ [(x, yu)]) lower1 upper1 r0 r1' r2 r3' /\ lev r1' (psub r3' r1') (x, yl) <= 0.
+Proof.
+  intros Ll Ul C D r0 r1 r2 r3 x yu yl lower1 upper1 r1' r3' HI HxU HxL Hy H1 H2 E.
+  assert (Hr1x : fst r1 < x).
+  { rewrite Forall_forall in HxL. apply HxL.
+    pose proof (i_CL _ _ _ _ _ _ _ _ HI) as HCL. rewrite Forall_forall in HCL. apply HCL.
+    rewrite <- (i_hdC _ _ _ _ _ _ _ _ HI). apply hd_pt_in. exact (i_Cne _ _ _ _ _ _ _ _ HI). }
+  assert (Hr3x : fst r3 < x).
+  { rewrite Forall_forall in HxU. apply HxU.
+    pose proof (i_DU _ _ _ _ _ _ _ _ HI) as HDU. rewrite Forall_forall in HDU. apply HDU.
+    rewrite <- (i_lastD _ _ _ _ _ _ _ _ HI). apply last_in. exact (i_Dne _ _ _ _ _ _ _ _ HI). }
+  destruct (slt (psub (x, yu) r1) (psub r3 r1)) eqn:Eb.
+  - apply slt_lev in Eb.
+    destruct C as [|c rest]; [exfalso; exact (i_Cne _ _ _ _ _ _ _ _ HI eq_refl)|].
+    injection E as <- <- <- <-. split.
+    + apply (stepA_branch Ll Ul D r0 r1 r2 r3 (x, yu) c rest HI); try assumption.
+      eapply Forall_impl; [|exact HxL]. intros v Hv. left. exact Hv.
+    + set (t := hd_pt (tangent_lower (x, yu) c rest)).
+      rewrite (lev_shift t (psub (x, yu) t) (x, yu) (x, yl)). rewrite lev_on_line.
+      destruct (sA_tangent Ll Ul D r0 r1 r2 r3 (x, yu) c rest HI) as (pre' & t' & T' & _ & ET & Htx & _).
+      * eapply Forall_impl; [|exact HxL]. intros v Hv. left. exact Hv.
+      * exact Hr1x.
+      * assert (Et : t = t') by (unfold t; rewrite ET; reflexivity). rewrite Et.
+        cbn [fst] in Htx. unfold lev, psub. cbn [fst snd]. nia.
+  - apply slt_lev_false in Eb. injection E as <- <- <- <-. split; [|exact H2].
+    apply stepA_nobranch; try assumption. cbn [fst]. lia.
+Qed.
+
+Lemma phase2 : forall Ll Ul C D r0 r1 r2 r3 x yl lower2 upper2 r0' r2',
+  Inv Ll Ul C D r0 r1 r2 r3 ->
+  Forall (fun q => fst q < x) Ll ->
+  (0 < lev r0 (psub r2 r0) (x, yl) -> Forall (left_or_over (x, yl)) Ul) ->
+  lev r1 (psub r3 r1) (x, yl) <= 0 ->
+  (if sgt (psub (x, yl) r0) (psub r2 r0)
+   then match D with
+        | [] => (C, D, r0, r2)
+        | d :: rest => (push_lower C (x, yl), tangent_upper (x, yl) d rest,
+                        hd_pt (tangent_upper (x, yl) d rest), (x, yl))
+        end
+   else (C, D, r0, r2)) = (lower2, upper2, r0', r2') ->
+  Inv (Ll ++ [(x, yl)]) Ul lower2 upper2 r0' r1 r2' r3.
+Proof.
+  intros Ll Ul C D r0 r1 r2 r3 x yl lower2 upper2 r0' r2' HI HxL HxU H2 E.
+  assert (Hr2x : fst r2 < x).
+  { rewrite Forall_forall in HxL. apply HxL.
+    pose proof (i_CL _ _ _ _ _ _ _ _ HI) as HCL. rewrite Forall_forall in HCL. apply HCL.
+    rewrite <- (i_lastC _ _ _ _ _ _ _ _ HI). apply last_in. exact (i_Cne _ _ _ _ _ _ _ _ HI). }
+  assert (Hr0x : fst r0 < x).
+  { pose proof (i_dx1 _ _ _ _ _ _ _ _ HI) as Hd. unfold psub in Hd. cbn [fst] in Hd. lia. }
+  destruct (sgt (psub (x, yl) r0) (psub r2 r0)) eqn:Eb.
+  - apply sgt_lev in Eb.
+    destruct D as [|d rest]; [exfalso; exact (i_Dne _ _ _ _ _ _ _ _ HI eq_refl)|].
+    injection E as <- <- <- <-.
+    apply (stepB_branch Ll Ul C r0 r1 r2 r3 (x, yl) d rest HI); try assumption.
+    apply HxU. exact Eb.
+  - apply sgt_lev_false in Eb. injection E as <- <- <- <-.
+    apply stepB_nobranch; try assumption. cbn [fst]. lia.
+Qed.
+
+(* ---- the invariant after the second point ---- *)
+Lemma Inv_base : forall x0 x al ah bl bh,
+  x0 < x -> al <= ah -> bl <= bh ->
+  Inv [(x0, al); (x, bl)] [(x0, ah); (x, bh)] [(x0, al); (x, bl)] [(x0, ah); (x, bh)]
+      (x0, ah) (x0, al) (x, bl) (x, bh).
+Proof.
+  intros x0 x al ah bl bh Hx Ha Hb.
+  assert (0 <= (ah - al) * (x - x0)) by (apply Z.mul_nonneg_nonneg; lia).
+  assert (0 <= (bh - bl) * (x - x0)) by (apply Z.mul_nonneg_nonneg; lia).
+  constructor; try discriminate; try reflexivity;
+    try (intros o s _ _ _ Hall; exact Hall);
+    try (repeat constructor; unfold lev, psub; cbn [fst snd]; nia);
+    try (unfold sle, psub; cbn [fst snd]; nia);
+    try (cbn; lia); try exact I.
+Qed.
+
+(* ---- the invariant of a builder state relative to the fed points ---- *)
+Definition lows (eps : Z) (cur : list (Z * Z)) : list pt := map (fun q => (fst q, band_lo eps (snd q))) cur.
+Definition ups (eps : Z) (cur : list (Z * Z)) : list pt := map (fun q => (fst q, band_hi eps (snd q))) cur.
+
+Definition sinv (eps : Z) (cur : list (Z * Z)) (s : pla) : Prop :=
+  (p_n s = 1 -> exists x0 y0, cur = [(x0, y0)] /\
+     p_lower s = [(x0, band_lo eps y0)] /\ p_upper s = [(x0, band_hi eps y0)] /\
+     p_r0 s = (x0, band_hi eps y0) /\ p_r1 s = (x0, band_lo eps y0) /\
+     band_lo eps y0 <= band_hi eps y0) /\
+  (2 <= p_n s -> Inv (lows eps cur) (ups eps cur) (p_lower s) (p_upper s)
+                     (p_r0 s) (p_r1 s) (p_r2 s) (p_r3 s)) /\
+  (1 <= p_n s -> p_first_x s = fst (hd (0, 0) cur)).
+
+Lemma lows_app : forall eps cur x y, lows eps (cur ++ [(x, y)]) = lows eps cur ++ [(x, band_lo eps y)].
+Proof. intros. unfold lows. rewrite map_app. reflexivity. Qed.
+Lemma ups_app : forall eps cur x y, ups eps (cur ++ [(x, y)]) = ups eps cur ++ [(x, band_hi eps y)].
+Proof. intros. unfold ups. rewrite map_app. reflexivity. Qed.
+
+Lemma lows_x_lt : forall eps cur m x, (forall p, In p cur -> fst p <= m) -> m < x ->
+  Forall (fun q => fst q < x) (lows eps cur).
+Proof.
+  intros eps cur m x H Hm. unfold lows. apply Forall_map. apply Forall_forall.
+  intros p Hp. cbn [fst]. pose proof (H p Hp). lia.
+Qed.
+Lemma ups_x_lt : forall eps cur m x, (forall p, In p cur -> fst p <= m) -> m < x ->
+  Forall (fun q => fst q < x) (ups eps cur).
+Proof.
+  intros eps cur m x H Hm. unfold ups. apply Forall_map. apply Forall_forall.
+  intros p Hp. cbn [fst]. pose proof (H p Hp). lia.
+Qed.
+
+Lemma band_lo_le_hi : forall eps y, 0 <= eps -> 0 <= y -> y + eps < 2 ^ 64 - 1 ->
+  band_lo eps y <= band_hi eps y.
+Proof.
+  intros eps y He Hy Hr. rewrite (band_hi_ranks_ok eps y Hr).
+  destruct (band_lo_cases eps y) as [[_ E] | [_ E]]; rewrite E; lia.
+Qed.
+
+Lemma sinv_first : forall eps s x y s',
+  p_n s = 0 -> p_eps s = eps -> 0 <= eps -> rank_ok eps y ->
+  add_point y_size_t s x y = Ok (true, s') -> sinv eps [(x, y)] s'.
+Proof.
+  intros eps s x y s' Hn He Heps [Hy0 Hy1] H. unfold add_point in H. rewrite Hn, He in H.
+  cbn [Z.gtb Z.compare andb Z.eqb] in H.
+  destruct (band y_size_t eps y) as [yu yl] eqn:Hband.
+  assert (Hyu : yu = band_hi eps y) by (unfold band_hi; rewrite Hband; reflexivity).
+  assert (Hyl : yl = band_lo eps y) by (unfold band_lo; rewrite Hband; reflexivity).
+  injection H as <-. subst yu yl. unfold sinv. cbn [p_n p_lower p_upper p_r0 p_r1 p_r2 p_r3 p_first_x].
+  split; [|split].
+  - intros _. exists x, y. repeat split; try reflexivity. apply band_lo_le_hi; assumption.
+  - intros C. lia.
+  - intros _. reflexivity.
+Qed.
+
+Lemma sinv_second : forall eps cur s x y s',
+  0 <= eps -> rank_ok eps y -> p_eps s = eps -> p_n s = 1 ->
+  (forall p, In p cur -> fst p <= p_last_x s) ->
+  sinv eps cur s -> add_point y_size_t s x y = Ok (true, s') -> sinv eps (cur ++ [(x, y)]) s'.
+Proof.
+  intros eps cur s x y s' Heps [Hy0 Hy1] He Hn Hlast (S1 & _ & S3) H.
+  destruct (S1 Hn) as (x0 & y0 & Ecur & El & Eu & E0 & E1 & Hb0).
+  assert (Hf : p_first_x s = x0) by (rewrite S3 by lia; rewrite Ecur; reflexivity).
+  unfold add_point in H. rewrite Hn, He in H.
+  destruct (x <=? p_last_x s) eqn:Hg; [discriminate H|]. apply Z.leb_gt in Hg.
+  cbn [Z.gtb Z.compare andb Z.eqb] in H.
+  destruct (band y_size_t eps y) as [yu yl] eqn:Hband.
+  assert (Hyu : yu = band_hi eps y) by (unfold band_hi; rewrite Hband; reflexivity).
+  assert (Hyl : yl = band_lo eps y) by (unfold band_lo; rewrite Hband; reflexivity).
+  injection H as <-. subst yu yl.
+  assert (Hx0 : x0 < x).
+  { assert (fst (x0, y0) <= p_last_x s) by (apply Hlast; rewrite Ecur; left; reflexivity).
+    cbn [fst] in *. lia. }
+  unfold sinv. cbn [p_n p_lower p_upper p_r0 p_r1 p_r2 p_r3 p_first_x].
+  split; [intros C; lia|]. split.
+  - intros _. rewrite El, Eu, E0, E1, Ecur. cbn [app lows ups map fst snd].
+    apply Inv_base; [exact Hx0 | exact Hb0 | apply band_lo_le_hi; assumption].
+  - intros _. rewrite Hf, Ecur. reflexivity.
+Qed.
+
+Lemma hd_app_ne : forall (l : list (Z * Z)) a d, l <> [] -> hd d (l ++ [a]) = hd d l.
+Proof. intros [|b l] a d H; [contradiction | reflexivity]. Qed.
+
+Lemma sinv_later : forall eps cur s x y s',
+  0 <= eps -> rank_ok eps y -> 2 <= p_n s ->
+  rect_inv eps cur s -> sinv eps cur s ->
+  add_point y_size_t s x y = Ok (true, s') -> sinv eps (cur ++ [(x, y)]) s'.
+Proof.
+  intros eps cur s x y s' Heps [Hy0 Hy1] H2 (He & Hn & I1 & I2 & Z1 & Z2) (_ & S2 & S3) Hadd.
+  assert (H1 : 1 <= p_n s) by lia.
+  destruct (I1 H1) as (_ & _ & _ & _ & _ & _ & Hlast).
+  pose proof (S2 H2) as HI.
+  unfold add_point in Hadd.
+  assert (Hgt : (p_n s >? 0) = true) by (apply Z.gtb_lt; lia). rewrite Hgt in Hadd. cbn [andb] in Hadd.
+  destruct (x <=? p_last_x s) eqn:Hg; [discriminate Hadd|]. apply Z.leb_gt in Hg.
+  rewrite He in Hadd.
+  destruct (band y_size_t eps y) as [yu yl] eqn:Hband.
+  assert (Hyu : yu = band_hi eps y) by (unfold band_hi; rewrite Hband; reflexivity).
+  assert (Hyl : yl = band_lo eps y) by (unfold band_lo; rewrite Hband; reflexivity).
+  clear Hband. subst yu yl.
+  destruct (p_n s =? 0) eqn:Hn0; [apply Z.eqb_eq in Hn0; lia|].
+  destruct (p_n s =? 1) eqn:Hn1; [apply Z.eqb_eq in Hn1; lia|].
+  destruct (slt (psub (x, band_hi eps y) (p_r2 s)) (psub (p_r2 s) (p_r0 s))) eqn:Ho1;
+    [discriminate Hadd|].
+  destruct (sgt (psub (x, band_lo eps y) (p_r3 s)) (psub (p_r3 s) (p_r1 s))) eqn:Ho2;
+    [discriminate Hadd|].
+  cbn [orb] in Hadd.
+  destruct (if slt (psub (x, band_hi eps y) (p_r1 s)) (psub (p_r3 s) (p_r1 s))
+            then match p_lower s with
+                 | [] => (p_lower s, p_upper s, p_r1 s, p_r3 s)
+                 | c :: rest =>
+                     (tangent_lower (x, band_hi eps y) c rest, push_upper (p_upper s) (x, band_hi eps y),
+                      hd_pt (tangent_lower (x, band_hi eps y) c rest), (x, band_hi eps y))
+                 end
+            else (p_lower s, p_upper s, p_r1 s, p_r3 s)) as [[[lower1 upper1] r1'] r3'] eqn:E1.
+  destruct (if sgt (psub (x, band_lo eps y) (p_r0 s)) (psub (p_r2 s) (p_r0 s))
+            then match upper1 with
+                 | [] => (lower1, upper1, p_r0 s, p_r2 s)
+                 | c :: rest =>
+                     (push_lower lower1 (x, band_lo eps y), tangent_upper (x, band_lo eps y) c rest,
+                      hd_pt (tangent_upper (x, band_lo eps y) c rest), (x, band_lo eps y))
+                 end
+            else (lower1, upper1, p_r0 s, p_r2 s)) as [[[lower2 upper2] r0'] r2'] eqn:E2.
+  injection Hadd as <-.
+  unfold sinv. cbn [p_n p_lower p_upper p_r0 p_r1 p_r2 p_r3 p_first_x].
+  split; [intros C; lia|]. split.
+  2:{ intros _. rewrite (S3 H1). symmetry. f_equal. apply hd_app_ne.
+      intros C. subst cur. unfold zlen in Hn. cbn [length] in Hn. lia. }
+  intros _. rewrite lows_app, ups_app.
+  pose proof (lows_x_lt eps cur _ x Hlast Hg) as HxL.
+  pose proof (ups_x_lt eps cur _ x Hlast Hg) as HxU.
+  pose proof (band_lo_le_hi eps y Heps Hy0 Hy1) as Hb.
+  apply slt_lev_false in Ho1. apply sgt_lev_false in Ho2.
+  assert (Ho1' : 0 <= lev (p_r0 s) (psub (p_r2 s) (p_r0 s)) (x, band_hi eps y)).
+  { rewrite (lev_shift _ _ (p_r2 s)). rewrite lev_on_line. lia. }
+  assert (Ho2' : lev (p_r1 s) (psub (p_r3 s) (p_r1 s)) (x, band_lo eps y) <= 0).
+  { rewrite (lev_shift _ _ (p_r3 s)). rewrite lev_on_line. lia. }
+  destruct (phase1 _ _ _ _ _ _ _ _ x _ _ _ _ _ _ HI HxU HxL Hb Ho1' Ho2' E1) as [HI1 Hp2].
+  apply (phase2 _ _ _ _ _ _ _ _ x _ _ _ _ _ HI1 HxL); [|exact Hp2|exact E2].
+  intros Hpos.
+  (* the second branch fires: eps > 0, so the new upper point is strictly above the new lower one *)
+  assert (Hepos : 0 < eps).
+  { destruct (Z.eq_dec eps 0) as [E0 | NE0]; [|lia]. exfalso.
+    pose proof (Z1 E0 H1) as E01. pose proof (Z2 E0 H2) as E23.
+    destruct (band_eq_eps0 eps y E0 Hy0 Hy1) as [Elo Ehi].
+    rewrite Elo, Ehi in *. rewrite <- E01, <- E23 in *.
+    apply slt_lev_false in Ho1. apply sgt_lev_false in Ho2.
+    destruct (eps0_no_branch (p_r0 s) (p_r2 s) (x, y) Ho1 Ho2) as [_ B].
+    apply sgt_lev_false in B. lia. }
+  apply Forall_app. split.
+  - eapply Forall_impl; [|exact HxU]. intros v Hv. left. exact Hv.
+  - constructor; [|constructor]. right. cbn [fst snd]. split; [reflexivity|].
+    apply band_lo_lt_hi; assumption.
+Qed.
+
+Lemma sinv_step : forall eps cur s x y s',
+  0 <= eps -> rank_ok eps y -> rect_inv eps cur s -> sinv eps cur s ->
+  add_point y_size_t s x y = Ok (true, s') -> sinv eps (cur ++ [(x, y)]) s'.
+Proof.
+  intros eps cur s x y s' Heps Hrk Hrect Hs Hadd.
+  pose proof Hrect as (He & Hn & I1 & _).
+  pose proof (zlen_nonneg _ cur) as Hlen.
+  destruct (Z.eq_dec (p_n s) 0) as [N0 | N0].
+  - assert (cur = []) by (apply zlen_0_nil; lia). subst cur. cbn [app].
+    apply (sinv_first eps s x y s'); assumption.
+  - destruct (Z.eq_dec (p_n s) 1) as [N1 | N1].
+    + assert (H1 : 1 <= p_n s) by lia.
+      destruct (I1 H1) as (_ & _ & _ & _ & _ & _ & Hlast).
+      apply (sinv_second eps cur s x y s'); assumption.
+    + apply (sinv_later eps cur s x y s'); try assumption. lia.
+Qed.
+
+Lemma sinv_init : forall eps s, pla_init eps = Ok s -> sinv eps [] s.
+Proof.
+  intros eps s H. unfold pla_init in H. destruct (eps <? 0); [discriminate H|].
+  injection H as <-. unfold sinv. cbn [p_n]. split; [intros C; lia|]. split; intros C; lia.
+Qed.
+
+Lemma feed_all_sinv : forall eps pts cur s s',
+  0 <= eps -> ranks_ok eps pts -> rect_inv eps cur s -> sinv eps cur s ->
+  feed_all y_size_t s pts = Ok s' -> rect_inv eps (cur ++ pts) s' /\ sinv eps (cur ++ pts) s'.
+Proof.
+  intros eps pts. induction pts as [|[x y] tl IH]; intros cur s s' Heps Hr Hinv Hs Hf.
+  - cbn [feed_all] in Hf. injection Hf as <-. rewrite app_nil_r. split; assumption.
+  - cbn [feed_all] in Hf.
+    destruct (add_point y_size_t s x y) as [[ok s1]|e] eqn:Ha; cbn [bind] in Hf; [|discriminate Hf].
+    cbn [fst snd] in Hf. destruct ok; [|discriminate Hf].
+    unfold ranks_ok in Hr. inversion Hr as [|p0 tl0 [Hy0 Hy1] Hr']; subst. cbn [snd] in Hy0, Hy1.
+    pose proof (rect_inv_step eps cur s x y s1 Heps Hy0 Hy1 Hinv Ha) as Hinv1.
+    assert (Hs1 : sinv eps (cur ++ [(x, y)]) s1).
+    { apply (sinv_step eps cur s x y s1); try assumption. split; assumption. }
+    replace (cur ++ (x, y) :: tl) with ((cur ++ [(x, y)]) ++ tl)
+      by (rewrite <- app_assoc; reflexivity).
+    apply (IH _ s1 s' Heps Hr' Hinv1 Hs1 Hf).
 Qed.
